@@ -149,6 +149,37 @@ func readPrefix(data []byte, cut int) (outcome string, detail string) {
 	}
 }
 
+// readFile: ReadSystemFromFile under recover and a watchdog
+func readFile(path string) (outcome string, detail string) {
+	type res struct {
+		err      error
+		panicked interface{}
+	}
+	ch := make(chan res, 1)
+	go func() {
+		var r res
+		defer func() {
+			if p := recover(); p != nil {
+				r.panicked = p
+			}
+			ch <- r
+		}()
+		_, r.err = prover.ReadSystemFromFile(path)
+	}()
+	select {
+	case r := <-ch:
+		if r.panicked != nil {
+			return "panic", fmt.Sprint(r.panicked)
+		}
+		if r.err != nil {
+			return "error", r.err.Error()
+		}
+		return "loaded", ""
+	case <-time.After(60 * time.Second):
+		return "hang", "no result within 60 s"
+	}
+}
+
 func init() {
 	// builds the systems, writes both formats into the scratch directory, reports the section lengths
 	commands["keys-layout"] = func(args []string) {
@@ -202,8 +233,21 @@ func init() {
 		}
 		bad := 0
 		outcomes := map[string]int{}
+		tmpf := cs.Path + ".cut"
+		defer os.Remove(tmpf)
+		progress := cs.Path + ".progress"
+		defer os.Remove(progress)
 		for _, cut := range cs.Cuts {
+			os.WriteFile(progress, []byte(fmt.Sprint(cut)), 0o644) // if a reader brings the whole process down, the driver knows at which offset
 			o, d := readPrefix(data, cut)
+			if o == "error" {
+				// the same prefix as a FILE on disk, through ReadSystemFromFile (what start / prove / verify / convert-to-raw use)
+				os.WriteFile(tmpf, data[:cut], 0o644)
+				o, d = readFile(tmpf)
+				if o != "error" {
+					d = "ReadSystemFromFile: " + d
+				}
+			}
 			outcomes[o]++
 			if o != "error" && bad < 5 {
 				bad++
